@@ -4,11 +4,11 @@ R07.1 (effects + AST) copy numbers: computed once, in the constructor, as the nu
       *same name* (the filter compares names only); the set's item list is append-only; `_copy_number` has no writer
       after construction.
 R07.2 (shared with C14 R14.2) the memoised identity bytes are invalidated by every writer of name / origin / copy number.
-R07.3 (tables + CFG) every reference-typed attribute (EFLRAttribute, EFLROrTextAttribute, Attribute with OBNAME/OBJREF
+R07.3 (tables + inlined value-flow summary of check_objects) every reference-typed attribute (EFLRAttribute, EFLROrTextAttribute, Attribute with OBNAME/OBJREF
       code) is membership-checked on the write path: a generic walk over all attributes of all items of the logical
       file's own registry raises for a referenced EFLRItem that is not registered in that registry; the no-format
       records' objects are checked too; the walk dominates record generation.
-R07.4 (siblings) origin of every object: each add_* forwards `origin_reference or <defining origin of this file>`;
+R07.4 (siblings, inlined value-flow summaries) origin of every object: each add_* forwards `origin_reference or <defining origin of this file>`;
       add_origin numbers new origins against this logical file's origins; back-filling touches own objects only.
 R07.5 (AST) each IFLR body starts with the OBNAME of the frame / no-format object it was constructed with.
 R07.6 = C09 R09.1 (definitions precede the indirectly formatted records).
